@@ -16,6 +16,8 @@ pkg = re.search(r"(?m)^package (\w+)", demo).group(1)
 head = demo[:2500]
 if pkg.startswith("integration"): d = "integration"
 elif pkg in ("fosite", "fosite_test"): d = "."
+elif pkg in ("compose", "compose_test"): d = "compose"
+elif pkg in ("storage", "storage_test"): d = "storage"
 else:
     m = re.search(r"((?:handler|storage|token|compose)/[\w/]+)", head)
     d = m.group(1).rstrip("/") if m else "."
